@@ -40,7 +40,7 @@ TInit ==
     /\ hist = <<>> /\ nforge = 0 /\ pj = ""
 
 \* signature classes are observable only as valid / not valid
-NSig(x) == IF x = "valid" THEN "valid" ELSE "invalid"
+NSig(x) == IF SigOK(x) THEN "valid" ELSE "invalid"
 
 SameEv(a, b) ==
     /\ a.type = b.type
@@ -74,6 +74,7 @@ Enabled(x) ==
       [] x.a = "MakeLeaveResp" -> phase = "mlreq" /\ net.k = "mlreq"
       [] x.a = "InviteReq"     -> flow = "invite" /\ phase = "start"
       [] x.a = "InviteResp"    -> phase = "invreq" /\ net.k = "invreq"
+      [] x.a = "Retry"         -> CanRetry
       [] x.a = "Forge"         -> ForgeGuard(x.f, x.v, x.resign)
       [] OTHER -> FALSE
 
@@ -89,6 +90,7 @@ Do(x) ==
     \/ x.a = "MakeLeaveResp" /\ MakeLeaveResp
     \/ x.a = "InviteReq"     /\ InviteReq
     \/ x.a = "InviteResp"    /\ InviteResp
+    \/ x.a = "Retry"         /\ Retry
     \/ x.a = "Forge"         /\ Forge(x.f, x.v, x.resign)
 
 \* what the line observed agrees with the state reached (n: the message after the step, h: the new history entry)
@@ -99,6 +101,7 @@ Agrees(x, n, h, j, p) ==
       [] x.a = "BuildJoin" -> /\ h.built = x.built
                               /\ IF x.built THEN SameEv(j, x.ev) ELSE (p = "refused" /\ x.pj = "refused")
       [] x.a = "JoinDone" -> p = x.res /\ x.note = ""
+      [] x.a = "Retry" -> TRUE
       [] OTHER -> FALSE
 
 Reject(a, want, why) ==
@@ -109,7 +112,7 @@ Load ==
     /\ More /\ Line.a = "begin"
     /\ sc' = Line.sc /\ flow' = Line.flow /\ phase' = "start" /\ net' = NoMsg /\ jev' = NoEv
     /\ hist' = <<>> /\ nforge' = 0 /\ pj' = ""
-    /\ IF phase \in {"idle", "done"} \/ skip THEN UNCHANGED <<bad, info>>
+    /\ IF phase = "idle" \/ Final \/ skip THEN UNCHANGED <<bad, info>>
        ELSE Reject("unfinished", "", {})                                        \* the previous run never finished
     /\ skip' = FALSE /\ l' = l + 1
 
@@ -138,7 +141,7 @@ TSpec == TInit /\ [][TNext]_<<vars, tvars>>
 \* the last run of the trace must have finished as well
 Report ==
     (l = Len(Trace) + 1) =>
-        LET open == ~(phase \in {"idle", "done"} \/ skip)
+        LET open == ~(phase = "idle" \/ Final \/ skip)
             b == IF open THEN Append(bad, Len(Trace)) ELSE bad
             i == IF open THEN Append(info, [l |-> Len(Trace), a |-> "unfinished", want |-> "", why |-> {}]) ELSE info
         IN  b # <<>> => (PrintT("TRACE_REJECTED " \o ToJson(b)) /\ PrintT("TRACE_INFO " \o ToJson(i)))
